@@ -367,6 +367,17 @@ def scope_case(case: dict) -> dict:
     try:
         with time_limit(10):
             cur = parse(case["text"])
+            if case.get("formals"):
+                # a directly applied function: the way the repository's own tests reach the body
+                from nix_manipulator.expressions.parenthesis import Parenthesis
+                from nix_manipulator.resolution import attach_resolution_context, function_call_scope, set_resolution_context
+                call = cur.expr
+                ps = function_call_scope(call)
+                fn = call.name.value if isinstance(call.name, Parenthesis) else call.name
+                cur = fn.output
+                if ps is not None:
+                    set_resolution_context(cur, (ps,))
+                attach_resolution_context(cur, owner=cur)
             for k in case["keys"]:
                 cur = cur[k]
             v = cur.value
